@@ -246,6 +246,7 @@ class Program:
         if impl_self is not None:
             c = [b for b in c if impl_self in (b.rec.get("impl_self") or "")]
         if len(c) == 1:
+            TOUCHED.add(c[0].key)
             return c[0]
         if not c:
             return None
@@ -256,7 +257,14 @@ class Program:
         return [b for b in self.bodies if b.promoted is None and rx.search(b.key)]
 
     def by_raw(self, raw):
-        return self.raw_index.get(raw)
+        b = self.raw_index.get(raw)
+        if b is not None:
+            TOUCHED.add(b.key)
+        return b
+
+
+# keys of the bodies a check looked up by name or inlined (coverage audit: tools/coverage.py); never used for a verdict
+TOUCHED = set()
 
 
 def _known_sigs():
